@@ -13,11 +13,11 @@ import (
 )
 
 type rvSpec struct {
-	reads    []*Term   // operand leaves of registers read
-	writes   []*Term   // operand leaves of registers written
-	run      []*Term   // accepted alternatives of the Run outcome
-	memRead  *Term     // nil = returns nil
-	memWrite *Term     // nil = returns nil
+	reads    []*Term // operand leaves of registers read
+	writes   []*Term // operand leaves of registers written
+	run      []*Term // accepted alternatives of the Run outcome
+	memRead  *Term   // nil = returns nil
+	memWrite *Term   // nil = returns nil
 }
 
 type specBuilder struct {
